@@ -35,7 +35,22 @@ func genC16(t *rapid.T) c16Case {
 	ids := []string{"j1", "j2", "j3", "j4"}
 	for i := 0; i < n; i++ {
 		l := fmt.Sprintf("op%d", i)
-		switch rapid.SampledFrom([]string{"add", "add", "add", "add", "rem", "rem", "sleep", "sleep", "sleep", "suspend", "resume", "pause"}).Draw(t, l+".kind") {
+		switch rapid.SampledFrom([]string{"add", "add", "add", "add", "rem", "rem", "sleep", "sleep", "sleep", "suspend", "resume", "pause", "overlap"}).Draw(t, l+".kind") {
+		case "overlap":
+			// generations of one id whose (slow) functions overlap in
+			// time, then a removal while one of them is running
+			id := rapid.SampledFrom(ids).Draw(t, l+".id")
+			gaps := []int64{100e6, 500e6, 700e6, 1e9, 1300e6, 1500e6}
+			mk := func(tag string) op {
+				return op{K: "add", Id: id, N: int64(rapid.IntRange(0, 1).Draw(t, l+tag+".expr")),
+					Doc: M{"kind": "expr", "dur": float64(rapid.SampledFrom([]int64{200e6, 1200e6, 1200e6}).Draw(t, l+tag+".dur"))}}
+			}
+			c.Ops = append(c.Ops, mk(".a"),
+				op{K: "sleep", N: rapid.SampledFrom(gaps).Draw(t, l+".g1")},
+				mk(".b"),
+				op{K: "sleep", N: rapid.SampledFrom(gaps).Draw(t, l+".g2")},
+				op{K: "rem", Id: id},
+				op{K: "sleep", N: 3e9})
 		case "add":
 			id := rapid.SampledFrom(ids).Draw(t, l+".id")
 			kind := rapid.SampledFrom([]string{"plus", "plus", "bang", "expr"}).Draw(t, l+".sched")
